@@ -164,7 +164,7 @@ func typeChecks(src string) bool {
 }
 
 func runChild(file string) string {
-	ctx, cancel := context.WithTimeout(context.Background(), 20*time.Second)
+	ctx, cancel := context.WithTimeout(context.Background(), 3*time.Second)
 	defer cancel()
 	exe, _ := os.Executable()
 	cmd := exec.CommandContext(ctx, exe, "-run", file)
@@ -185,13 +185,16 @@ func runGC(tmp, src string) (string, bool) {
 	if err := b.Run(); err != nil {
 		return "", false
 	}
-	ctx, cancel := context.WithTimeout(context.Background(), 20*time.Second)
+	ctx, cancel := context.WithTimeout(context.Background(), 3*time.Second)
 	defer cancel()
 	cmd := exec.CommandContext(ctx, filepath.Join(d, "p.bin"))
 	var buf bytes.Buffer
 	cmd.Stdout, cmd.Stderr = &buf, &buf
 	cmd.Env = append(os.Environ(), "GOTRACEBACK=single")
 	cmd.Run()
+	if ctx.Err() != nil {
+		return "", false
+	}
 	return buf.String(), true
 }
 
@@ -201,7 +204,7 @@ func runScriggo(src []byte) {
 		fmt.Println("BUILD ERROR:", err)
 		return
 	}
-	ctx, cancel := context.WithTimeout(context.Background(), 10*time.Second)
+	ctx, cancel := context.WithTimeout(context.Background(), 3*time.Second)
 	defer cancel()
 	err = p.Run(&scriggo.RunOptions{Context: ctx})
 	if err != nil {
